@@ -957,7 +957,10 @@ class Summaries:
                             pass
             if w:
                 inv.havoc_screen(eng, st, w)
-            st.log(('loop-head', fr.func if fr else None, head, fr.uid if fr else None))
+            desc = None
+            if isinstance(it, IterV) and it.kind == 'range':
+                desc = ('range', it.args[0], it.args[1], bool(it.args[2]), tuple(o[0] for o in it.ops))
+            st.log(('loop-head', fr.func if fr else None, head, fr.uid if fr else None, desc))
             if inv.S_ROOT in st.store and fr is not None:
                 try:
                     st.vn[('lh', fr.func, head, 'x')] = inv._get(eng, st, 'cursor', 'x')
@@ -2192,7 +2195,10 @@ class Summaries:
                 kn = [kv for kv in c.known if not (_is_const(kv[0]) and kv[0].key() == k.key())]
                 kn.append((k, v))
                 known = tuple(kn)
-            bump(ctx, path, c, known=known, length=None)
+            nc = bump(ctx, path, c, known=known, length=None)
+            if isinstance(k, V):
+                # the key is present from now on (until the map changes again)
+                ctx.st.vn[('fact', ('contains', nc.key(), k.key()))] = True
             return OpaqueV(ctx.ret_ty, next(_c))
 
         def _is_const(v):
@@ -2374,7 +2380,9 @@ class Summaries:
                 c2 = type(ctx)(ctx.eng, s, ctx.fr, ctx.bi, ctx.t, ctx.fn, ctx.callee, ctx.args, ctx.depth)
                 log(c2, 'map.entry_or_insert', spath(path), k, dv)
                 p2, cc = coll_at(c2, r, 'map')
-                bump(c2, p2, cc, known=None, length=None)
+                nc2 = bump(c2, p2, cc, known=None, length=None)
+                if isinstance(k, V):
+                    s.vn[('fact', ('contains', nc2.key(), k.key()))] = True
                 if path is not None:
                     out.append((s, RefV((path[0], path[1] + (('e', k),)), True)))
                 else:
@@ -2849,7 +2857,9 @@ class Summaries:
             for h in eng.hooks:
                 h('width', st, ctx.fr, ctx.bi, ch)
             w = eng.num_opaque(st, 'usize', 0, 2, key, 'width(%r)' % (ch,))
-            return EnumV(ctx.ret_ty, {0, 1}, {1: StructV('Some', {'0': w})})
+            r = EnumV(ctx.ret_ty, {0, 1}, {1: StructV('Some', {'0': w})})
+            st.vn[('widthopt',) + key[1:]] = r.eid
+            return r
 
         @regx(r'^<str as unicode_width::UnicodeWidthStr>::width(_cjk)?$')
         def _(ctx):
